@@ -201,10 +201,14 @@ var verif_ghost struct {
 	dMtCount    uint32    // result of the most recent memTable.count
 
 	// journal index (C04)
-	iPeekOK   bool      // peekRootHashAt found a valid root record ...
-	iPeekHash hash.Hash // ... holding this hash ...
-	iPeekOff  int64     // ... at this journal offset
-	iRead     int64     // bytes consumed from the index reader so far
+	iPeekOK    bool      // peekRootHashAt found a valid root record ...
+	iPeekHash  hash.Hash // ... holding this hash ...
+	iPeekOff   int64     // ... at this journal offset
+	iRead      int64     // bytes consumed from the index / journal reader so far
+	jStream    []byte    // the byte stream behind the journal reader (ghost)
+	jValidOK   bool      // the most recent validateJournalRecord accepted its buffer
+	jLossFound bool      // the most recent possibleDataLossCheck saw a valid root record past the stop point
+	jReaderOff int64     // offset at which the most recent record scan stopped
 
 	// single-writer protocol (C41)
 	jLockHeld bool // the most recent attempt to take the journal LOCK file succeeded
@@ -331,3 +335,14 @@ func verif_b2i(b bool) int64 {
 	}
 	return 0
 }
+
+func verif_x_bufio_Peek(r *bufio.Reader, n int) (b []byte, err error) { return r.Peek(n) }
+
+func verif_x_journal_cb(o int64, r journalRec) (err error) { return nil }
+
+func verif_x_bufio_NewReaderSize(r io.Reader, size int) (rd *bufio.Reader) {
+	return bufio.NewReaderSize(r, size)
+}
+
+// verif_stream(i) is the i-th byte of the stream behind the journal reader (uninterpreted: the stream is arbitrary).
+func verif_stream(i int64) byte { return 0 }
